@@ -228,7 +228,7 @@ def layouts():
 
 INMODES = {"": ("json", False, []), "-n": ("json", True, ["-n"]), "-s": ("slurp", False, ["-s"]), "-n -s": ("slurp", True, ["-n", "-s"]), "-R": ("raw", False, ["-R"]), "-R -s": ("rawslurp", False, ["-R", "-s"]),
            "--raw-input0": ("raw0", False, ["--raw-input0"]), "--from raw": ("raw", False, ["--from", "raw"]), "--from json": ("json", False, ["--from", "json"])}
-OUTOPTS = {"": ({}, []), "-c": ({"c": 1}, ["-c"]), "-r": ({"r": 1}, ["-r"]), "-j": ({"j": 1, "r": 1}, ["-j"]), "-j --to json": ({"j": 1}, ["-j", "--to", "json"]), "-rj": ({"r": 1, "j": 1}, ["-rj"]), "-S": ({"S": 1}, ["-S"]), "-cS": ({"c": 1, "S": 1}, ["-cS"]), "--tab": ({"tab": 1}, ["--tab"]),
+OUTOPTS = {"": ({}, []), "-c": ({"c": 1}, ["-c"]), "-r": ({"r": 1}, ["-r"]), "-j": ({"j": 1, "r": 1}, ["-j"]), "-j --to json": ({"j": 1}, ["-j", "--to", "json"]), "--to json -j": ({"j": 1}, ["--to", "json", "-j"]), "--raw-output0 -j": ({"raw0": 1}, ["--raw-output0", "-j"]), "-r -j": ({"r": 1, "j": 1}, ["-r", "-j"]), "--to json -cj": ({"j": 1, "c": 1}, ["--to", "json", "-cj"]), "-rj": ({"r": 1, "j": 1}, ["-rj"]), "-S": ({"S": 1}, ["-S"]), "-cS": ({"c": 1, "S": 1}, ["-cS"]), "--tab": ({"tab": 1}, ["--tab"]),
            "--indent 1": ({"indent": 1}, ["--indent", "1"]), "--indent 3": ({"indent": 3}, ["--indent", "3"]), "--indent 7": ({"indent": 7}, ["--indent", "7"]), "--raw-output0": ({"raw0": 1}, ["--raw-output0"]), "-M": ({}, ["-M"]),
            "--to json": ({}, ["--to", "json"]), "--to raw": ({"r": 1}, ["--to", "raw"]), "-r -c": ({"r": 1, "c": 1}, ["-r", "-c"]), "--tab -S": ({"tab": 1, "S": 1}, ["--tab", "-S"])}
 
